@@ -1,4 +1,6 @@
 import Karp.Driver.ReqJson
+import Karp.Driver.ScenarioJson
+import Karp.Spec.Admissible
 import Karp.Model.Template
 
 namespace Karp.Driver.C13
@@ -130,8 +132,102 @@ def opTemplate (inp impl : Json) : Except String Resp := do
     | .error e => (false, "implementation output unusable: " ++ e)
   pure { allowed := some true, spec := some ok, why := why }
 
+section Launch
+open Karp.Scn Karp.Driver.ScenarioJson Karp.Spec.Admissible
+
+/-- `c13.launch`: every NodeClaim written by the real Provisioner vs the in-memory NodeClaim it came from -/
+def opLaunch (inp impl : Json) : Except String Resp := do
+  let s ← scenario inp
+  let maxIT := match fldOpt inp "maxInstanceTypes" with
+    | some j => match j.getNat? with | .ok 0 => Karp.Gen.Template.maxInstanceTypes | .ok n => n | _ => Karp.Gen.Template.maxInstanceTypes
+    | none => Karp.Gen.Template.maxInstanceTypes
+  if (fldOpt impl "err").isSome then return { allowed := some true, spec := some true, why := "pass returned an error" }
+  let res : Except String (Bool × String) := do
+    if (fldOpt impl "panic").isSome then return (false, "scheduling / NodeClaim creation panicked")
+    let claims ← arrF impl "claims"
+    for cj in claims do
+      let mem ← claim (← fld cj "mem")
+      let pool ← match s.pool? mem.pool with | some p => pure p | none => throw "unknown pool"
+      match fldOpt cj "written" with
+      | none => pure ()   -- creation refused (limits): nothing was written
+      | some wj =>
+        let labels ← (← arrF wj "labels").mapM (fun j => do pure ((← strF j "k"), (← strF j "v")))
+        let sels ← (← arrF wj "sels").mapM parseSel
+        let pods := mem.pods.filterMap s.pod?
+        let cands := (scenarioCandidates s { existing := [], claims := [mem], errors := [] }) ++ labels.map (·.2)
+        -- (1) instance types: subset of the scheduler's options, capped, minValues floor kept under the strict policy
+        let its := (sels.filter (fun x => x.key == "node.kubernetes.io/instance-type" && x.op == .in_)).flatMap (·.values)
+        if pool.name != "" then
+          if its.isEmpty then return (false, s!"claim for {mem.pods}: no instance-type requirement was written")
+          if its.any (fun i => !mem.its.contains i) then return (false, s!"claim for {mem.pods}: written instance types are not a subset of the scheduler's options")
+          if its.eraseDups.length > maxIT then return (false, s!"claim for {mem.pods}: more than MaxInstanceTypes ({maxIT}) instance types written")
+          match (mem.reqs.get "node.kubernetes.io/instance-type").minValues with
+          | some m =>
+            if !s.bestEffortMinValues && (its.eraseDups.length : Int) < m then
+              return (false, s!"claim for {mem.pods}: {its.eraseDups.length} instance types written but minValues is {m} (strict policy)")
+          | none => pure ()
+        -- (2) key by key: the written entries (Kubernetes semantics) admit exactly what the scheduler's requirement admits
+        for (k, r) in mem.reqs do
+          if Karp.Template.simulationKeys.contains k then
+            if sels.any (fun x => x.key == k) then return (false, s!"simulation-only key {k} was written")
+          else if k == "node.kubernetes.io/instance-type" || k == Karp.Gen.Labels.capacityTypeLabelKey then
+            -- ToNodeClaim narrows these two further (cheapest types, their available capacity types): subset
+            let ks := sels.filter (fun x => x.key == k)
+            match cands.find? (fun v => selMatches ks v && !r.has v) with
+            | some v => return (false, s!"key {k}: written NodeClaim admits {v.quote}, which the scheduler's requirement rejects")
+            | none => pure ()
+          else
+            let ks := sels.filter (fun x => x.key == k)
+            if ks.isEmpty then return (false, s!"key {k}: the scheduler's requirement was not written to the NodeClaim")
+            match cands.find? (fun v => selMatches ks v != r.has v) with
+            | some v => return (false, s!"key {k}, value {v.quote}: scheduler admits = {r.has v}, written NodeClaim admits = {selMatches ks v}")
+            | none => pure ()
+            if ks.any (fun x => x.minValues != r.minValues) then return (false, s!"key {k}: minValues not carried")
+        -- (3) requests cover the pods plus the least daemon overhead among the instance types
+        let wCPU ← intF wj "reqCPU"
+        let itObjs := mem.its.filterMap s.it?
+        let dcpu (it : IT) : Int :=
+          let perOffering := (it.offerings.filter (fun o => o.available && offeringCompatible mem.reqs o)).map (fun o =>
+            (s.daemonsets.filter (dsOnLaunch pool it o)).foldl (fun a d => a + d.cpu) 0)
+          match perOffering with
+          | [] => 0
+          | x :: rest => rest.foldl min x
+        -- the overhead is computed (FinalizeScheduling) before the launch list is truncated: when a truncation cap is
+        -- in force only the catalogue-wide minimum is a safe lower bound
+        let truncating := match fldOpt inp "maxInstanceTypes" with | some j => (j.getNat?.toOption.getD 0) != 0 | none => false
+        let basis := if truncating then s.its else itObjs
+        let minD : Int := match basis with
+          | [] => 0
+          | i :: rest => rest.foldl (fun a x => min a (dcpu x)) (dcpu i)
+        if wCPU < sumCPU pods + minD then
+          return (false, s!"claim for {mem.pods}: written cpu requests {wCPU}m do not cover pods {sumCPU pods}m + least daemon overhead {minD}m")
+        -- (4) labels: template labels, nodepool label, and only labels derived from THIS claim's requirements
+        for (k, v) in pool.labels do
+          if labels.lookup k != some v then return (false, s!"template label {k}={v} missing or changed on the NodeClaim")
+        if labels.lookup Karp.Gen.Labels.nodePoolLabelKey != some pool.name then return (false, "nodepool label missing or wrong")
+        for (k, v) in labels do
+          if (pool.labels.lookup k).isSome || k == Karp.Gen.Labels.nodePoolLabelKey || k.startsWith "karpenter.test.sh/" then pure ()
+          else match mem.reqs.lookup k with
+            | none => return (false, s!"label {k}={v} on the NodeClaim comes neither from the template nor from this NodeClaim's requirements")
+            | some r => if !r.has v then return (false, s!"label {k}={v} on the NodeClaim is rejected by the NodeClaim's own requirement")
+        -- (5) taints and hash
+        let wt ← (← arrF wj "taints").mapM taint
+        let wst ← (← arrF wj "startupTaints").mapM taint
+        if wt != pool.taints then return (false, "taints differ from the template")
+        if wst != pool.startupTaints then return (false, "startup taints differ from the template")
+        if (← strF wj "hash") != (← strF wj "expectHash") then return (false, "nodepool-hash annotation is not the NodePool's hash")
+        if (← strF wj "hashVersion") != Karp.Gen.Template.nodePoolHashVersion then return (false, "hash version annotation wrong")
+    pure (true, "")
+  let (ok, why) := match res with
+    | .ok x => x
+    | .error e => (false, "implementation output unusable: " ++ e)
+  pure { allowed := some true, spec := some ok, why := why }
+
+end Launch
+
 def handle : Handler := fun op inp impl =>
   match op with
+  | "c13.launch" => opLaunch inp impl
   | "c13.roundtrip" => opRoundtrip inp impl
   | "c13.any" => opAny inp impl
   | "c13.template" => opTemplate inp impl
